@@ -58,6 +58,8 @@ package requestreply
 //@   ensures result == nil && !p.config.AckCommandErrors ==> params.HandleErr == nil [a-handler-error-nacks-the-command-unless-configured-otherwise]
 //@   ensures calls(PUB) == old(calls(PUB)) + 1 && ret(PUB, 0, old(calls(PUB))) == nil && p.config.AckCommandErrors ==> result == nil [with-AckCommandErrors-a-published-reply-acks-the-command]
 //@   ensures calls(PUB) == old(calls(PUB)) + 1 && ret(PUB, 0, old(calls(PUB))) == nil && !p.config.AckCommandErrors ==> result == params.HandleErr [otherwise-the-handlers-error-decides]
+//@   ensures calls(PUB) == old(calls(PUB)) + 1 && ret(PUB, 0, old(calls(PUB))) != nil && p.config.ReplyPublishErrorHandler == nil ==> result != nil [a-failed-reply-publish-nacks-the-command-whatever-the-ack-policy]
+//@   ensures calls(PUB) == old(calls(PUB)) + 1 && ret(PUB, 0, old(calls(PUB))) != nil && p.config.ReplyPublishErrorHandler != nil && calls(EH) == old(calls(EH)) + 1 && ret(EH, 0, old(calls(EH))) != nil ==> result != nil [also-when-the-error-handler-keeps-the-error]
 //@   assert @call:p.config.Publisher.Publish: notificationMsg != nil && has(notificationMsg.Metadata, OperationIDMetadataKey) && notificationMsg.Metadata[OperationIDMetadataKey] == params.CommandMessage.Metadata[OperationIDMetadataKey] && notificationMsg.Metadata[OperationIDMetadataKey] != "" [the-reply-carries-the-operation-id-of-its-command]
 
 //@ func (PubSubBackend[Result]).ListenForNotifications$1
